@@ -15,16 +15,16 @@ Theorem C10_fixed_concat : forall S (data : list S) W rec mx k, 1 <= W ->
                    (snd (reads (mk_reader data W None rec mx) k))) = vis data mx.
 Proof. exact ReaderProofs.C10_fixed_concat. Qed.
 
-Theorem C10_overlap : forall S (data : list S) W H rec mx k, 1 <= H -> H < W ->
+Theorem C10_overlap : forall S (data : list S) W H rec mx k, 1 <= H -> H <= W ->
   snd (reads (mk_reader data W (Some H) rec mx) k)
   = map (fun i => overlap_block (vis data mx) W H (Z.of_nat i)) (seq 0 k).
 Proof. exact ReaderProofs.C10_overlap. Qed.
 
-Theorem C10_overlap_full : forall S (v : list S) W H k, 1 <= H -> H < W -> 0 <= k ->
+Theorem C10_overlap_full : forall S (v : list S) W H k, 1 <= H -> H <= W -> 0 <= k ->
   k + 1 < nb_overlap (zlen v) W H -> zlen (zslice v (k * H) (k * H + W)) = W.
 Proof. exact ReaderProofs.C10_overlap_full. Qed.
 
-Theorem C10_overlap_last_nonempty : forall S (v : list S) W H k, 1 <= H -> H < W ->
+Theorem C10_overlap_last_nonempty : forall S (v : list S) W H k, 1 <= H -> H <= W ->
   0 <= k < nb_overlap (zlen v) W H -> 0 < zlen (zslice v (k * H) (k * H + W)).
 Proof. exact ReaderProofs.C10_overlap_last_nonempty. Qed.
 
